@@ -529,3 +529,26 @@ Proof.
   - exists b. split; [exact Hr|]. rewrite Hiff. rewrite Hs.
     rewrite (sig_changes_iff H0 HC Hid d_now d_then). reflexivity.
 Qed.
+
+(* ---------- proofs of the non-vacuity examples stated in Props/Properties_C09.v ---------- *)
+
+Lemma boundary_instances :
+  sig_tokens (set_outputs (set_inputs ex_def ([[97;46;99]] ++ [[104]])) []) <> sig_tokens (set_outputs (set_inputs ex_def [[97;46;99]]) [[104]]) /\
+  sig_tokens (set_deps_style ex_def 1) <> sig_tokens (set_deps_style ex_def 2) /\
+  sig_tokens (flip_flag ex_def 4) <> sig_tokens ex_def.
+Proof.
+  split; [apply move_input_to_output | split; [apply change_deps_style; [reflexivity | discriminate] | apply flip_one_flag; right; split; [lia | reflexivity]]].
+Qed.
+
+Lemma rerun_instance_output_changed :
+  reexecutes false (rerun_decision ex_stored 42 false [mkOnode false false (ex_info 11)]) = Some true
+  /\ output_differs [mkOnode false false (ex_info 11)] (bv_infos (st_value ex_stored)).
+Proof.
+  split; [vm_compute; reflexivity|].
+  exists 0%nat, (mkOnode false false (ex_info 11)), (ex_info 10). repeat split; vm_compute; reflexivity.
+Qed.
+
+Lemma rerun_hypotheses_instance :
+  st_built_at ex_stored <> 0 /\ st_cancelled ex_stored = false /\
+  length (bv_infos (st_value ex_stored)) = length [mkOnode false false (ex_info 10)].
+Proof. repeat split. discriminate. Qed.
